@@ -184,8 +184,8 @@ static std::string quote_oracle(const uint8_t* in, size_t n, const char* out, si
 }
 
 struct QuoteEnv {
-  Guarded src{2};
-  Guarded dst{4};
+  Guarded src{18};   // longest Q4 string 65537 + distance e
+  Guarded dst{100};  // 6n+35 for n = 65537
 };
 // Which Quote kernel is under test.  Static builds have one.  The runtime-dispatch build compiles both
 // instruction-set variants into one binary but, on this machine, always selects the AVX2 one through the
@@ -298,9 +298,58 @@ int main(int argc, char** argv) {
     f7.chunk = 1 << 14;
     f7.group = "I7";
     f7.rule = "for every k: all values 2^k+d and 10^k+d with |d| <= " + std::to_string(W7) + ", as uint64 through U64toa, as the int64 with the same bits and as its negation through I64toa (every word-size and digit-count boundary of both signs), d = -2..2 also through Serialize+Parse";
-    fams = {f1, f2, f3, f4, f5, f6, f7};
+    // I8: the printer splits the value by 10^4 / 10^8 / 10^16 and keeps the parts in narrower integers; a quotient that is
+    // a multiple of 2^16 or 2^32 (or just next to one) is exactly what a narrowing slip would mis-handle
+    static std::vector<uint64_t> V8;
+    {
+      static const uint64_t R8[] = {0, 1, 9, 10, 99, 100, 999, 1000, 9999, 10000, 12345, 65535, 65536, 99999, 100000, 999999, 1000000, 9999999, 10000000, 12345678, 50000000, 99990000, 99999998, 99999999};
+      const unsigned __int128 LIM = (unsigned __int128)UINT64_MAX;
+      for (uint64_t M : {10000ull, 100000000ull}) {
+        for (int sft : {16, 32}) {
+          const uint64_t kmax = (uint64_t)((LIM / M) >> sft);
+          std::vector<uint64_t> ks;
+          for (uint64_t k = 1; k <= std::min<uint64_t>(kmax, 70000); k++) ks.push_back(k);
+          for (int j = 0; j < 64; j++)
+            for (int d = -1; d <= 1; d++) {
+              uint64_t k = ((uint64_t)1 << j) + (uint64_t)d;
+              if (k > 70000 && k <= kmax) ks.push_back(k);
+            }
+          for (uint64_t k = kmax > 2 ? kmax - 2 : 1; k <= kmax; k++)
+            if (k > 70000) ks.push_back(k);
+          for (uint64_t k : ks) {
+            unsigned __int128 q0 = (unsigned __int128)k << sft;
+            for (int d = -2; d <= 2; d++) {
+              unsigned __int128 q = q0 + d;
+              for (uint64_t r : R8) {
+                if (r >= M) continue;
+                unsigned __int128 v = q * M + r;
+                if (v <= LIM) V8.push_back((uint64_t)v);
+              }
+            }
+          }
+        }
+      }
+      std::sort(V8.begin(), V8.end());
+      V8.erase(std::unique(V8.begin(), V8.end()), V8.end());
+    }
+    vr::Family f8;
+    f8.name = "I8_quotient_word_boundaries";
+    f8.count = V8.size();
+    f8.chunk = 1 << 12;
+    f8.group = "I8";
+    f8.rule = "all values q*M + r with M in {10^4, 10^8}, q = k*2^16 + d or k*2^32 + d (|d| <= 2; k = 1..70000, 2^j-1..2^j+1 and the last three that fit; for 2^32 x 10^8 that is every k), r from 24 boundary remainders: as uint64, as int64 bits and negated";
+    fams = {f1, f2, f3, f4, f5, f6, f7, f8};
     check = [&](const vr::Family& f, uint64_t idx, vr::Ctx& ctx) {
       switch (f.name[1]) {
+        case '8': {
+          uint64_t v = V8[idx];
+          if (ctx.want_sample) ctx.sample(std::to_string(v));
+          ctx.nontriv();
+          check_u64(v, ctx, "quotient-boundary");
+          check_i64(v, ctx);
+          check_i64((uint64_t)0 - v, ctx);
+          break;
+        }
         case '7': {
           uint64_t k = idx / (2 * W7 + 1);
           int64_t d = (int64_t)(idx % (2 * W7 + 1)) - (int64_t)W7;
@@ -430,15 +479,61 @@ int main(int argc, char** argv) {
     q2.group = "Q2";
     q2.rule = "length n in 0..100, two special bytes at all position pairs i<j, specials from a " + std::to_string(NR) + "-byte set (controls, quote, backslash, 0x20, 0x7f, 0x80, 0xff, ...)";
     q3.name = "Q3_page_placement";
-    q3.count = (uint64_t)NMAX * NMAX * NR * 65;
+    // distance e between the last source byte and the unmapped page: every value inside the 64-byte window in which the
+    // kernel takes its page-end path, and values outside it (there the ordinary tail code runs and the bytes that follow
+    // the string in memory are readable: they must still not influence the output)
+    static std::vector<unsigned> E3;
+    for (unsigned e = 0; e <= 64; e++) E3.push_back(e);
+    for (unsigned e : {65u, 66u, 95u, 96u, 97u, 127u, 128u, 129u, 255u, 256u, 1000u, 3000u}) E3.push_back(e);
+    const unsigned NE3 = (unsigned)E3.size();
+    q3.count = (uint64_t)NMAX * NMAX * NR * NE3;
     q3.chunk = 4096;
     q3.group = "Q3";
-    q3.rule = "production path: string (one special at every position) whose last byte lies e in 0..64 bytes before an unmapped page; the in-page bytes after it filled once with '\"' and once with 'a' must not influence the output; destination of exactly 6n+35 bytes followed by an unmapped page";
-    fams = {q1, q2, q3};
+    q3.rule = "production path: string (one special at every position) whose last byte lies e in 0..64 and 65,66,95..97,127..129,255,256,1000,3000 bytes before an unmapped page; the in-page bytes after it filled with '\"', 'a' and backslash must not influence the output; destination of exactly 6n+35 bytes followed by an unmapped page";
+    // Q4: long strings. The kernels work in vector blocks and may unroll over several of them, so one special byte is put
+    // at every position of strings far longer than any unrolling factor.
+    static std::vector<std::pair<uint32_t, uint32_t>> Q4;  // (n, pos)
+    {
+      std::vector<uint32_t> LN;
+      for (uint32_t b : {128u, 256u, 384u, 512u, 640u, 768u, 1024u, 2048u, 4096u})
+        for (int d = -1; d <= 1; d++) LN.push_back(b + d);
+      LN.push_back(1100);
+      for (uint32_t n : LN)
+        for (uint32_t p = 0; p < n; p++) Q4.push_back({n, p});
+      for (uint32_t b : {16384u, 65536u})
+        for (int d = -1; d <= 1; d++) {
+          uint32_t n = b + d;
+          for (uint32_t p = 0; p < n; p++) {
+            uint32_t m = p % 128;
+            if (p < 300 || p + 300 >= n || m <= 1 || (m >= 31 && m <= 33) || (m >= 63 && m <= 65) || (m >= 95 && m <= 97) || m == 127) Q4.push_back({n, p});
+          }
+        }
+    }
+    static const uint8_t S4[] = {'\\', '"', 0x1f, 0x00};
+    vr::Family q4;
+    q4.name = "Q4_long_strings";
+    q4.count = (uint64_t)Q4.size() * 4 * 2;
+    q4.chunk = 256;
+    q4.group = "Q4";
+    q4.rule = "long strings: n in {128,256,384,512,640,768,1024,2048,4096}+-1 and 1100 with one of backslash, quote, 0x1f, 0x00 at EVERY position; n in {16384,65536}+-1 with it at every position within 300 bytes of either end and at every position congruent to 0,1,31..33,63..65,95..97,127 mod 128; source ending 0 and 70 bytes before the unmapped page (production) / exact-size heap blocks (ASan); next byte in memory a quote";
+    fams = {q1, q2, q3, q4};
 #if HAVE_ASAN
-    fams = {q1, q2};  // page placement is a production-build concern (the in-page fast path is compiled out under sanitizers)
+    fams = {q1, q2, q4};  // page placement is a production-build concern (the in-page fast path is compiled out under sanitizers)
 #endif
-    check = [&, NR](const vr::Family& f, uint64_t idx, vr::Ctx& ctx) {
+    check = [&, NR, NE3](const vr::Family& f, uint64_t idx, vr::Ctx& ctx) {
+      if (f.name[1] == '4') {
+        unsigned ei = (unsigned)(idx % 2);
+        idx /= 2;
+        uint8_t b = S4[idx % 4];
+        idx /= 4;
+        uint32_t n = Q4[idx].first, pos = Q4[idx].second;
+        std::string s(n, 'a');
+        s[pos] = (char)b;
+        if (ctx.want_sample) ctx.sample("n=" + std::to_string(n) + " pos=" + std::to_string(pos) + " byte=" + std::to_string(b));
+        ctx.nontriv();
+        check_quote(qenv, s, ei ? 70 : 0, '"', ctx, nullptr);
+        return;
+      }
       if (f.name[1] == '1') {
         unsigned byte = (unsigned)(idx % 256);
         idx /= 256;
@@ -477,8 +572,8 @@ int main(int argc, char** argv) {
         return;
       }
       {
-        unsigned e = (unsigned)(idx % 65);
-        idx /= 65;
+        unsigned e = E3[idx % NE3];
+        idx /= NE3;
         unsigned b = (unsigned)(idx % NR);
         idx /= NR;
         unsigned pos = (unsigned)(idx % NMAX);
@@ -548,7 +643,37 @@ int main(int argc, char** argv) {
     m5.chunk = 16;
     m5.group = "M5";
     m5.rule = "objects of 12 members whose names are pool[i], pool[i+s], ... for 8 strides s (mixed lengths and first words, 8 insertion orders): after CreateMap every member name is found at its own index by FindMember(view / ptr,len), HasMember, operator[]; every other pool key misses; the same without the map";
-    fams = {m1, m2, m3, m4, m5};
+    // M6: TWO differences of opposite sign at every pair of positions (an unrolled loop that merges the masks of
+    // several blocks must still report the FIRST difference); M7: long operands, one difference at every position
+    static const unsigned L6[] = {64, 65, 95, 96, 97, 127, 128, 129, 130, 159, 160, 161, 191, 192, 193, 200, 255, 256, 257, 300};
+    static std::vector<std::pair<uint32_t, uint32_t>> P7;  // (len, diff)
+    if (P7.empty()) {
+      for (uint32_t b : {512u, 1024u, 2048u, 4096u})
+        for (int d = -1; d <= 1; d++) {
+          uint32_t n = b + d;
+          for (uint32_t p = 0; p <= n; p++) P7.push_back({n, p});
+        }
+      for (uint32_t b : {16384u, 65536u})
+        for (int d = -1; d <= 1; d++) {
+          uint32_t n = b + d;
+          for (uint32_t p = 0; p <= n; p++) {
+            uint32_t m = p % 128;
+            if (p < 300 || p + 300 >= n || m <= 1 || (m >= 31 && m <= 33) || (m >= 63 && m <= 65) || (m >= 95 && m <= 97) || m == 127) P7.push_back({n, p});
+          }
+        }
+    }
+    vr::Family m6, m7;
+    m6.name = "M6_two_differences";
+    m6.count = (uint64_t)(sizeof L6 / sizeof L6[0]) * 300 * 300 * 4;
+    m6.chunk = 1 << 14;
+    m6.group = "M6";
+    m6.rule = "lengths {64,65,95..97,127..130,159..161,191..193,200,255..257,300}: two differing bytes of OPPOSITE sign at every pair of positions i<j (4 sign-sensitive byte pairs): result must have the sign of the first difference; exact-size heap operands under ASan";
+    m7.name = "M7_long_operands";
+    m7.count = (uint64_t)P7.size() * 2;
+    m7.chunk = 256;
+    m7.group = "M7";
+    m7.rule = "lengths {512,1024,2048,4096}+-1 with the first difference at every position (and none); {16384,65536}+-1 with it within 300 bytes of either end and at positions congruent to 0,1,31..33,63..65,95..97,127 mod 128; a later opposite difference 70 bytes on";
+    fams = {m1, m2, m3, m4, m5, m6, m7};
 #ifdef SONIC_DYNAMIC_DISPATCH
     fams = {m3, m5};
 #endif
@@ -582,6 +707,48 @@ int main(int argc, char** argv) {
         if (eq != (ref == 0) || eq2 != (ref == 0)) ctx.violation("memcmpeq", "memcmpeq", desc, "%s: InlinedMemcmpEq=%d/%d but memcmp=%d", desc.c_str(), (int)eq, (int)eq2, ref);
         if (sgn(c) != sgn(ref) || sgn(c2) != -sgn(ref)) ctx.violation("memcmp_sign", "memcmp_sign", desc, "%s: InlinedMemcmp=%d (swapped %d) but memcmp=%d", desc.c_str(), c, c2, ref);
       };
+      if (f.name[1] == '6' || f.name[1] == '7') {
+        unsigned len, i, j, pi;
+        if (f.name[1] == '6') {
+          pi = (unsigned)(idx % 4) * 2;  // pairs {0,1},{7f,80},{0,ff},{a,b}
+          idx /= 4;
+          j = (unsigned)(idx % 300);
+          idx /= 300;
+          i = (unsigned)(idx % 300);
+          len = L6[idx / 300];
+          if (!(i < j && j < len)) {
+            ctx.skip();
+            return;
+          }
+        } else {
+          pi = (unsigned)(idx % 2) * 2 + 2;  // {7f,80} / {0,ff}
+          idx /= 2;
+          len = P7[idx].first;
+          i = P7[idx].second;
+          j = i + 70;
+        }
+        std::vector<uint8_t> va(len), vb(len);
+        for (unsigned k = 0; k < len; k++) va[k] = vb[k] = (uint8_t)('A' + (k * 7) % 50);
+        if (i < len) {
+          va[i] = pairs[pi][0];
+          vb[i] = pairs[pi][1];
+        }
+        if (j < len) {
+          va[j] = pairs[pi][1];
+          vb[j] = pairs[pi][0];
+        }
+        uint8_t* a = (uint8_t*)std::malloc(len);
+        uint8_t* b = (uint8_t*)std::malloc(len);
+        std::memcpy(a, va.data(), len);
+        std::memcpy(b, vb.data(), len);
+        std::string desc = "len=" + std::to_string(len) + " diff@" + std::to_string(i) + " and opposite diff@" + std::to_string(j) + " pair" + std::to_string(pi);
+        if (ctx.want_sample) ctx.sample(desc);
+        ctx.nontriv();
+        verdict(a, b, len, desc);
+        std::free(a);
+        std::free(b);
+        return;
+      }
       if (f.name[1] == '1') {
         unsigned eb = (unsigned)(idx % NE);
         idx /= NE;
